@@ -90,17 +90,17 @@ func NamedSubtype(n string, v interface{}, st string) Arg {
 		return Named(n, v)
 	}
 
+	name := strings.ToLower(n)
 	return func(a *argBuilder) error {
 		rv := reflect.ValueOf(v)
 		if !rv.IsValid() {
 			return nil
 		}
 
-		n = strings.ToLower(n)
-		if a.namedSub[n] == nil {
-			a.namedSub[n] = map[string]reflect.Value{}
+		if a.namedSub[name] == nil {
+			a.namedSub[name] = map[string]reflect.Value{}
 		}
-		a.namedSub[n][st] = rv
+		a.namedSub[name][st] = rv
 		return nil
 	}
 }
